@@ -34,7 +34,10 @@ var c06Features = []c06Feature{
 }
 
 // place[f] = -1 unused, 0 spec level, k>0 device k-1
-func c06Build(n int, place []int) *specs.Spec {
+// variant selects among equivalent realisations of each used feature (other
+// values, other element positions): the required version must not depend on it.
+func c06Build(n int, place []int, variant int) *specs.Spec {
+	pick := func(f, k int) int { return (variant/(f+1) + f) % k }
 	s := &specs.Spec{Version: "1.0.0", Kind: "vendor.com/cls"}
 	for i := 0; i < n; i++ {
 		s.Devices = append(s.Devices, specs.Device{Name: fmt.Sprintf("d%d", i), ContainerEdits: specs.ContainerEdits{Env: []string{fmt.Sprintf("D%d=1", i)}}})
@@ -53,24 +56,32 @@ func c06Build(n int, place []int) *specs.Spec {
 		case "mountType":
 			e := edits(pl)
 			// a mount without type first: the typed one is not the first element
-			e.Mounts = append(e.Mounts, &specs.Mount{HostPath: "/h0", ContainerPath: "/c0"}, &specs.Mount{HostPath: "/h", ContainerPath: "/c", Type: "tmpfs"})
+			typed := &specs.Mount{HostPath: "/h", ContainerPath: "/c", Type: []string{"tmpfs", "bind", "none", " "}[pick(f, 4)]}
+			if pick(f, 3) == 2 {
+				e.Mounts = append(e.Mounts, typed, &specs.Mount{HostPath: "/h0", ContainerPath: "/c0"})
+			} else {
+				e.Mounts = append(e.Mounts, &specs.Mount{HostPath: "/h0", ContainerPath: "/c0"}, typed)
+			}
 		case "hostPath":
 			e := edits(pl)
-			e.DeviceNodes = append(e.DeviceNodes, &specs.DeviceNode{Path: "/dev/x0", Type: "c", Major: 1}, &specs.DeviceNode{Path: "/dev/x", HostPath: "/dev/null"})
+			e.DeviceNodes = append(e.DeviceNodes, &specs.DeviceNode{Path: "/dev/x0", Type: "c", Major: 1}, &specs.DeviceNode{Path: "/dev/x", HostPath: []string{"/dev/null", "/dev/x", "x", " "}[pick(f, 4)]})
 		case "digitName":
-			s.Devices[pl-1].Name = fmt.Sprintf("%dd", pl-1)
+			s.Devices[pl-1].Name = []string{"%dd", "%d", "0%d", "%d.x-y"}[pick(f, 4)]
+			s.Devices[pl-1].Name = fmt.Sprintf(s.Devices[pl-1].Name, pl-1)
 		case "annotations":
+			m := []map[string]string{{"k": "v"}, {"k": ""}, {"a.b/c": "v", "d": "w"}}[pick(f, 3)]
 			if pl == 0 {
-				s.Annotations = map[string]string{"k": "v"}
+				s.Annotations = m
 			} else {
-				s.Devices[pl-1].Annotations = map[string]string{"k": "v"}
+				s.Devices[pl-1].Annotations = m
 			}
 		case "dottedClass":
-			s.Kind = "vendor.com/cls.x"
+			s.Kind = "vendor.com/" + []string{"cls.x", "c.d.e", "a.b", "x.0"}[pick(f, 4)]
 		case "intelRdt":
-			edits(pl).IntelRdt = &specs.IntelRdt{ClosID: "c"}
+			edits(pl).IntelRdt = []*specs.IntelRdt{{ClosID: "c"}, {L3CacheSchema: "L3:0=f"}, {MemBwSchema: "MB:0=20"}, {EnableCMT: true}}[pick(f, 4)]
 		case "additionalGids":
-			edits(pl).AdditionalGIDs = []uint32{7}
+			// a gid of 0 is ignored when the edits are applied, it is still a use of the field
+			edits(pl).AdditionalGIDs = [][]uint32{{7}, {0}, {0, 0}, {0, 5}, {4294967295}}[pick(f, 5)]
 		}
 	}
 	return s
@@ -136,7 +147,7 @@ func checkC06(c *Ctx) {
 		rec = func(f int) {
 			if f == len(c06Features) {
 				count++
-				s := c06Build(n, place)
+				s := c06Build(n, place, count)
 				want := c06Model(place)
 				wit := func() map[string]any {
 					return map[string]any{"n_devices": n, "placement": append([]int{}, place...), "features": c06Features, "spec": s}
@@ -278,7 +289,7 @@ func checkC06(c *Ctx) {
 	})
 	c.Extra("exhaustive", true)
 	c.Extra("exhaustive_bound", fmt.Sprintf("all 128 feature subsets, all placements, n<=%d devices, all permutations", maxN))
-	c.Sample(3, map[string]any{"n_devices": 2, "placement": "mountType in device 1 of 2, nothing else", "expected_minimum": "0.4.0", "spec": c06Build(2, []int{1, -1, -1, -1, -1, -1, -1})})
+	c.Sample(3, map[string]any{"n_devices": 2, "placement": "mountType in device 1 of 2, nothing else", "expected_minimum": "0.4.0", "spec": c06Build(2, []int{1, -1, -1, -1, -1, -1, -1}, 0)})
 	c.Sample(3, map[string]any{"n_devices": 3, "placement": "hostPath in device 2 of 3, annotations at spec level", "expected_minimum": "0.6.0", "declared_tried": strings.Join(c06Declared, "|")})
 	c.Floor("specs_feature_in_non_last_device", 100)
 	c.Floor("readspec_checked", 100)
